@@ -54,13 +54,14 @@ def handle : List String → String
   | ["read", k, maxSeg, defMax, known, off, size, kshex, pthex] =>
     match k.toNat?, maxSeg.toNat?, defMax.toNat?, known.toNat?, off.toNat?, parseSize size, bytesOfHex kshex, bytesOfHex pthex with
     | some k, some maxSeg, some defMax, some known, some off, some size, some ksb, some pt =>
-      match upload (ksOfBytes ksb) sysCodec () pt k k maxSeg with
+      let ksa := ksb.toArray
+      match upload (ksOfArray ksa) sysCodec () pt k k maxSeg with
       | .error e => e.toString
       | .ok u =>
         let pick : Nat → List Nat := fun _ => List.range k
         match readEvents sysCodec u pick defMax (known == 1) off size with
         | .error e => e.toString
-        | .ok evs => showEvents evs ++ ";" ++ hexOfBytes (decryptAt (ksOfBytes ksb) () off (chunksOf evs).flatten)
+        | .ok evs => showEvents evs ++ ";" ++ hexOfBytes (decryptAt (ksOfArray ksa) () off (chunksOf evs).flatten)
     | _, _, _, _, _, _, _, _ => "bad-op"
   | ["plan", fsize, k, seg, guess, known, off, rsize] =>
     match fsize.toNat?, k.toNat?, seg.toNat?, guess.toNat?, known.toNat?, off.toNat?, parseSize rsize with
@@ -84,7 +85,9 @@ def handle : List String → String
     | _, _, _ => "bad-op"
   | ["ctr", off, kshex, cthex] =>
     match off.toNat?, bytesOfHex kshex, bytesOfHex cthex with
-    | some off, some ksb, some ct => hexOfBytes (decryptAt (ksOfBytes ksb) () off ct)
+    | some off, some ksb, some ct =>
+      let ksa := ksb.toArray
+      hexOfBytes (decryptAt (ksOfArray ksa) () off ct)
     | _, _, _ => "bad-op"
   | ["clip", fsize, off, size] =>
     match fsize.toNat?, off.toNat?, parseSize size with
